@@ -615,7 +615,17 @@ func c18RenderMirror(base string, m *c18Mirror, hist, aheadHist []int64, immut b
 		m.Ahead = s
 	}
 	w.file("checkpoint", c18SignCheckpoint(m.Origin, c18Key(3), m.Size, m.Tree.Root(m.Size), 946684800000, true), 0o644, false)
-	return w.finish()
+	if err := w.finish(); err != nil {
+		return err
+	}
+	// the witness' own (pending) checkpoint of the same log lives next to the mirror directory, under the same origin
+	// hash: <witness dir>/<hash>/checkpoint. It is at least as large as the mirror checkpoint, usually larger.
+	pend := total
+	wdir := filepath.Join(base, filepath.FromSlash(strings.Replace(m.Prefix, "/mirror/", "/", 1)))
+	if err := os.MkdirAll(wdir, 0o755); err != nil {
+		return err
+	}
+	return os.WriteFile(filepath.Join(wdir, "checkpoint"), c18SignCheckpoint(m.Origin, c18Key(3), pend, m.Tree.Root(pend), 946684800000, true), 0o644)
 }
 
 // ---------------------------------------------------------------------------
